@@ -19,6 +19,8 @@ type Env struct {
 	locals func(name string) (*Sym, bool)
 	lets   map[string]*LetDef
 	depth  int
+	// litVars: macro parameters bound to integer literals; typed by the context of each use
+	litVars map[string]*Node
 }
 
 func (e *Env) with(name string, v *Sym) *Env {
@@ -237,6 +239,9 @@ func (e *Env) ident(name string, hint *Sym) *Sym {
 			return out
 		}
 		return &Sym{L: []*Term{mkInt64(0)}}
+	}
+	if ln, ok := e.litVars[name]; ok {
+		return e.eval(ln, hint)
 	}
 	if v, ok := e.vars[name]; ok {
 		return v
@@ -709,6 +714,56 @@ func (e *Env) call(n *Node, hint *Sym) *Sym {
 			cs = append(cs, mkRaw(fmt.Sprintf("(forall ((r!e Int)) (! (=> (<= r!e ctr0) (= (select %s r!e) (select %s r!e))) :pattern ((select %s r!e))))", cur.S, old.S, cur.S), SBool))
 		}
 		return scalar(types.Typ[types.Bool], mkAnd(cs...))
+	case "only_elems_changed":
+		// only_elems_changed(s, "Field"[, n]): between the old state and now, the field Field of the
+		// struct type pointed to by the elements of slice s changed only in objects that some element
+		// s[i] (i < n, default len(s)) points to - a frame for functions that update the rows of a list
+		v := e.eval(n.Args[0], nil)
+		if v.T == nil || kindOf(v.T) != KSlice || e.old == nil {
+			panic("only_elems_changed needs a slice of pointers and an old state")
+		}
+		elT := v.T.Underlying().(*types.Slice).Elem()
+		pt, ok := elT.Underlying().(*types.Pointer)
+		if !ok {
+			panic("only_elems_changed: elements must be pointers")
+		}
+		stT, ok := pt.Elem().Underlying().(*types.Struct)
+		if !ok {
+			panic("only_elems_changed: elements must point to structs")
+		}
+		fi, _ := findField(stT, n.Args[1].Name)
+		if fi < 0 {
+			panic("only_elems_changed: no field " + n.Args[1].Name)
+		}
+		bound := v.L[2]
+		if len(n.Args) > 2 {
+			bound = e.eval(n.Args[2], &Sym{T: types.Typ[types.Int], L: []*Term{mkBVu(0, 64)}}).term()
+		}
+		off, cnt, _ := fieldRange(pt.Elem(), fi)
+		e.x.nq++
+		iv := mkRaw(fmt.Sprintf("i!oe%d", e.x.nq), bvSort(64))
+		ef := familiesOf(RElem, elT)[0]
+		elem := mkSelect(mkSelect(e.x.hp.heapGet(e.st, ef), v.L[0]), elemIndex(v.L[1], iv))
+		inRange := mkAnd(bvCmp("bvsle", mkBVu(0, 64), iv), bvCmp("bvslt", iv, bound))
+		var cs []*Term
+		for _, f := range familiesOf(RStruct, pt.Elem())[off : off+cnt] {
+			cur, old := e.x.hp.heapGet(e.st, f), e.x.hp.heapGet(e.old, f)
+			if cur.S == old.S {
+				continue
+			}
+			cs = append(cs, mkRaw(fmt.Sprintf("(forall ((r!e Int)) (! (=> (not (= (select %s r!e) (select %s r!e))) (exists ((%s (_ BitVec 64))) (and %s (= %s r!e)))) :pattern ((select %s r!e))))", cur.S, old.S, iv.S, inRange.S, elem.S, cur.S), SBool))
+		}
+		if dualTypes[typeName(pt.Elem())] {
+			e.x.vc.theories["eref"] = true
+			for _, f := range familiesOf(RElem, pt.Elem())[off : off+cnt] {
+				cur, old := e.x.hp.heapGet(e.st, f), e.x.hp.heapGet(e.old, f)
+				if cur.S == old.S {
+					continue
+				}
+				cs = append(cs, mkRaw(fmt.Sprintf("(forall ((r!e Int)) (! (=> (not (= (select %s r!e) (select %s r!e))) (exists ((%s (_ BitVec 64))) (and %s (< %s (- 1000000000)) (= (eArr %s) r!e)))) :pattern ((select %s r!e))))", cur.S, old.S, iv.S, inRange.S, elem.S, elem.S, cur.S), SBool))
+			}
+		}
+		return scalar(types.Typ[types.Bool], mkAnd(cs...))
 	case "entry_objects_unchanged":
 		// every object of the argument's struct type that existed at function entry has all its
 		// fields as at entry (a heap frame usable as loop invariant)
@@ -837,8 +892,19 @@ func (e *Env) call(n *Node, hint *Sym) *Sym {
 			for k, v := range e.vars {
 				ne.vars[k] = v
 			}
+			ne.litVars = map[string]*Node{}
+			for k, v := range e.litVars {
+				ne.litVars[k] = v
+			}
 			for i, p := range ld.Params {
-				ne.vars[p] = e.eval(n.Args[i], nil)
+				a := n.Args[i]
+				delete(ne.litVars, p)
+				delete(ne.vars, p)
+				if a.Op == "int" || (a.Op == "un" && a.Name == "-" && len(a.Args) == 1 && a.Args[0].Op == "int") {
+					ne.litVars[p] = a
+					continue
+				}
+				ne.vars[p] = e.eval(a, nil)
 			}
 			return ne.eval(ld.Expr, hint)
 		}
